@@ -56,6 +56,12 @@ func runClientScenario(t *testing.T, rec *recorder, cfg *sysCfg, seed uint64, sc
 		if cfg.network == "unix" && sp.shut == "rst" {
 			sp.shut = "close"
 		}
+		if i == 0 {
+			// a connection whose OnOpen answers Close: Dial / Enroll must still come back with their one result
+			sp.total, sp.segs, sp.lockstep = 0, nil, false
+			sp.shut, sp.closeAt, sp.closeHow, sp.openOut, sp.reply = "server", 0, "action", -1, "none"
+			sp.asyncW, sp.wakes = 0, 0
+		}
 		// the peer listens on an address of its own: that address identifies the connection on the engine's side
 		var ln net.Listener
 		var lerr error
@@ -91,6 +97,17 @@ func runClientScenario(t *testing.T, rec *recorder, cfg *sysCfg, seed uint64, sc
 			network, addr := cfg.network, sp.laddr
 			var gc Conn
 			var derr error
+			// (a Dial / Enroll that never comes back is a request that was never carried out: C03, C19)
+			returned := make(chan struct{})
+			defer close(returned)
+			go func() {
+				select {
+				case <-returned:
+				case <-time.After(15 * time.Second):
+					rec.emit("ClientDialHangs", "c", sp.id, "how", how)
+					rep.Violation("client/dial-hangs", fmt.Sprintf("%s to %s has not returned after 15 s", how, addr), nil)
+				}
+			}()
 			switch how {
 			case "Dial", "DialContext":
 				// the engine's own address is not known beforehand ("*")
@@ -122,7 +139,7 @@ func runClientScenario(t *testing.T, rec *recorder, cfg *sysCfg, seed uint64, sc
 				return
 			}
 			// Dial / Enroll return once OnOpen has run: the connection is known to the handler
-			if _, ok := h.conns.Load(gc); !ok {
+			if _, ok := h.conns.Load(gc); !ok && gc != nil {
 				rec.emit("ClientDialNotOpened", "c", sp.id, "how", how)
 				rep.Violation("client/returned-before-open", fmt.Sprintf("%s returned a connection whose OnOpen has not run", how), nil)
 			}
